@@ -10,7 +10,7 @@
 #        stream and wrap paths, in exact-size heap blocks under ASan/UBSan with a 64 MiB allocation cap, allocation balance after
 #        each attempt, per-attempt timeout; each attempt runs in a forked child so that a sanitizer report is one datum.
 #
-# Mutations confirmed caught / harmless rewrites tolerated: see the list at the end of this file.
+# Mutations confirmed caught / harmless rewrites tolerated: see MUTATIONS at the end of this file.
 import hashlib, json, os, struct, subprocess, sys
 
 HERE = os.path.dirname(os.path.abspath(__file__))
@@ -28,8 +28,8 @@ TRUSTED = ['serialization harness harness/drv_serde.cpp + serde_core.hpp + serde
            'oracle in checks/fam_serde.py only (testing / enumeration, labelled as such)',
            'random choices of the sketches (coins, uniform doubles, indices) are supplied by a deterministic source through the DATASKETCHES_VERIF hook, so that '
            '"continue the same history on the original and on the restored sketch" is a deterministic comparison',
-           'baseline corpus corpus/C10/serde_baseline.json and corpus/C10/serde_sk_expected.json were recorded from the pinned commit (hooks.json repo_root_sha lineage) '
-           'with `python3 checks/fam_serde.py --record`']
+           'baseline corpus corpus/C10/serde_baseline.json and corpus/C10/serde_sk_expected.json were recorded with `python3 checks/fam_serde.py --record` from /repo main '
+           'after the fix commits of this project (ce52628); a fix that legitimately changes written images or reported content requires re-recording']
 ASSUMPTIONS = ['memory safety of the compiled readers is a run-time observation of ASan/UBSan on the enumerated inputs (every strict prefix, every preamble byte x 8 values); '
                'it is fault enumeration, not a theorem about the C++',
                'allocation cap 64 MiB per reader invocation stands for "unbounded allocation"; per-attempt timeout 6 s stands for "endless loop"',
@@ -407,8 +407,9 @@ def oracle_c11(case, irecs, mrecs):
                                'crash': 'the process died (' + kind + ' ' + fn + ')'}.get(name, name), where, ''), op_index=i, offs=idxs[:40]))
     return fails
 
-RULE_C11 = ('exhaustive fault enumeration on the implementation (enumeration, not proof): for several objects of each of the 26 type/serde combinations (small images of every state class) '
-            'EVERY strict prefix length 0..size-1 and EVERY byte of the preamble (first max(32, 8*preamble_longs) bytes) x 8 replacement values (0x00, 0xFF, +1, -1, bit 0 flipped, bit 7 '
+RULE_C11 = ('exhaustive fault enumeration on the implementation (enumeration, not proof): quick tier two fixed catalogue states per type/serde combination (26 combinations), thorough tier every '
+            'catalogue state (all state classes); for images up to 464 bytes (thorough 6064) EVERY strict prefix length 0..size-1, for larger ones the first 400 (6000) lengths, the last 64 and 400 (6000) evenly '
+            'spaced ones; plus hand-made hostile images no single-byte mutation reaches (HLL LIST image with compact flag and 9 / 255 coupons); and EVERY byte of the preamble (first max(32, 8*preamble_longs) bytes) x 8 replacement values (0x00, 0xFF, +1, -1, bit 0 flipped, bit 7 '
             'flipped, 0x7F, 0x80) is given to deserialize(bytes) in an exact-size heap block, to deserialize(stream) and to wrap() where the family has one (thorough: also a stream with '
             'exceptions enabled); expected: prefixes rejected (or the very same sketch), corrupted images rejected or usable through the public getters; failures: sanitizer report, crash, '
             'timeout 6 s, allocation above 64 MiB, allocation balance non-zero after the attempt, a prefix accepted with different content; non-trivial = every case')
@@ -732,8 +733,25 @@ if __name__ == '__main__':
         record()
 
 # ---------------------------------------------------------------------------------------------------------------------
-# Mutation log (scratch worktree /tmp/wt_serde, VERIF_REPO): filled in at the end of the file, see MUTATIONS below.
+# Mutation log (scratch worktrees /tmp/wt_serde, /tmp/wt_serde2 with VERIF_REPO; each run through ./check)
 # ---------------------------------------------------------------------------------------------------------------------
 MUTATIONS = '''
-(to be filled)
+Breaking mutations, all reported as VIOLATION:
+ M1 C11  ebpps_sketch::deserialize(bytes): ensure_minimum_memory(size, prelongs << 3) -> (prelongs - 1) << 3   (off by one long; the unit tests pass)
+         -> c11_prefix_memory_error:ebpps_*:bytes (prefix lengths 32..39 read past the buffer)
+ M2 C09  frequent_items_sketch::deserialize(istream): the line `sketch.offset = offset;` dropped
+         -> c09_same_after_stream:fi_int64:cls2 (maximum error / upper bounds of the restored sketch differ)
+ M3 C09  tdigest::serialize(ostream): REVERSE_MERGE flag no longer written -> c09_same_after_stream:tdigest_double:cls1
+ M4 C10  count_min_sketch: num_buckets / num_hashes written and read in swapped order, consistently in both writers and both readers:
+         ./check C09 stays green (round trips cannot see it), ./check C10 reports c10_unreadable:baseline:count_min (and the cmcodec family, when enabled)
+ M5 C09  kll_sketch::serialize(bytes): IS_LEVEL_ZERO_SORTED flag dropped in the bytes writer only -> bytes != stream (c09_bytes_eq_stream:kll_*, also kllcodec)
+ M6 C11  kll_sketch::deserialize(bytes): ensure_minimum_memory(size, preamble_ints * 4) removed -> c11_prefix_memory_error:kll_*:bytes (lengths 8..19)
+ M7 C11  count_min_sketch::deserialize(istream): final `if (!is.good()) throw` removed -> c11_prefix_accepted_different:count_min:stream (and cmcodec)
+ (an equivalent mutant, NOT reported and rightly so: frequent_items_sketch::deserialize(istream) `if (!is.good())` -> `if (false)`: the serde's own
+  stream test still rejects every truncated stream)
+Harmless rewrites, exit 0:
+ H1 frequent items hash map grows by a factor 4 (capped at lg_max) instead of 2: images differ in lg_cur_size and slot order, content identical
+    (C09 compares re-serialization up to table order, C10 compares images of unordered layouts through their content)
+ H2 count_min_sketch::serialize(ostream) writes the table with one bulk write instead of a loop
+ (not harmless, as it turned out: HLL coupon-set/aux-map growth at 1/2 instead of 3/4 changes how images written by the baseline are sized and read)
 '''
